@@ -166,7 +166,37 @@ func checkUnregister(c *core.Ctx, r *core.Report, a *locks.Analysis) {
 			n++
 			k++
 			construct := fmt.Sprintf("%s:unregister#%d-decided-under-the-write-lock", shortFn(fn), k)
+			// held locally, or — for a helper that is only ever called with it held (the body of the removal loop
+			// extracted into a function) — at every static call of this function
+			var callersHold func(f *ssa.Function, depth int) bool
+			callersHold = func(f *ssa.Function, depth int) bool {
+				sites := c.StaticCallers()[f]
+				if len(sites) == 0 || depth > 2 || f.Object() == nil || f.Object().Exported() {
+					return false
+				}
+				for _, site := range sites {
+					if _, isCall := site.(*ssa.Call); !isCall {
+						return false
+					}
+					held := false
+					if cf := a.Facts[site.Parent()]; cf != nil {
+						for _, h := range cf.MustAt[site] {
+							if strings.HasSuffix(h.Class.Name, "allSegStoresLock") && !h.Read {
+								held = true
+							}
+						}
+					}
+					if !held && !callersHold(site.Parent(), depth+1) {
+						return false
+					}
+				}
+				return true
+			}
+			entryHeld := callersHold(fn, 0)
 			writeHeld := func(in ssa.Instruction) bool {
+				if entryHeld {
+					return true
+				}
 				if ff == nil {
 					return false
 				}
